@@ -28,6 +28,15 @@ verse.txt
 stanza.txt
 :
 
+bigcopy.bin
+:
+big.bin
+:
+mycat
+big.bin
+bigcopy.bin
+:
+
 aside.txt
 copy.txt
 :
@@ -67,14 +76,18 @@ fn verif_serve_loopback()
     write_str_to_file(&mut system, "note.txt", "N.B.\n").unwrap();
     write_str_to_file(&mut system, "refrain.txt", "La la la.\n").unwrap();
     write_str_to_file(&mut system, "secret.txt", "outside the ruler directory\n").unwrap();
+    /*  one big target (17 MiB): after the second build its first version sits in the cache */
+    let big : String = (0..(17usize << 20) / 16).map(|i| format!("{:015}\n", i)).collect();
+    write_str_to_file(&mut system, "big.bin", &big).unwrap();
     let params = || BuildParams::from_all(".ruler".to_string(), vec!["build.rules".to_string()], None, None);
     build(system.clone(), &mut EmptyPrinter::new(), params()).unwrap();
     system.time_passes(1);
     write_str_to_file(&mut system, "verse.txt", "Violets are blue.\n").unwrap();
     write_str_to_file(&mut system, "note.txt", "P.S.\n").unwrap();
+    write_str_to_file(&mut system, "big.bin", "small now\n").unwrap();
     build(system.clone(), &mut EmptyPrinter::new(), params()).unwrap();
     let cached : Vec<String> = system.list_dir(".ruler/cache").unwrap().iter().map(|p| p.rsplit('/').next().unwrap().to_string()).collect();
-    if cached.len() < 2 { println!("WITNESS B-V-serve :: set-up :: the cache holds {} entries, expected at least 2", cached.len()); bad += 1; }
+    if cached.len() < 3 || !cached.iter().any(|n| *n == hash_name(big.as_bytes())) { println!("WITNESS B-V-serve :: set-up :: the cache holds {} entries, expected at least 3 incl. the big one", cached.len()); bad += 1; }
 
     let port = { let l = TcpListener::bind(("127.0.0.1", 0)).unwrap(); l.local_addr().unwrap().port() };
     { let s = system.clone(); std::thread::spawn(move || { let _ = serve(s, ".ruler", port); }); }
